@@ -71,7 +71,7 @@ Definition public_hyps_ok (comps : list (list rqent)) (rm : list ratom) : bool :
 
 (* ------------------------------------------------------------------------------------------------------------ *)
 (* 3. stack occupancy: the same loop as IsoBits.dfs, returning the largest number of entries the stack ever held.
-      The .pyx stores entry k in stack_index[k] / stack_depth[k]; both arrays have 2 * atoms_count cells.         *)
+      The .pyx stores entry k in stack_index[k] / stack_depth[k]; both arrays have atoms_count * query atoms cells.         *)
 
 Section Occupancy.
   Variable E : Type.
@@ -109,9 +109,14 @@ Definition mask_occupancy (qu : query_t) (mo : molecule_t) (scope : list bool) (
 Definition max_degree (mo : molecule_t) : nat :=
   fold_right Nat.max O (map (fun a => Z.to_nat (ma_to a - ma_from a)) (mo_atoms mo)).
 
-(* what the .pyx allocates, what was first suggested as a repair, and the bound that is proved sufficient *)
-Definition alloc_pyx (mo : molecule_t) : nat := (2 * List.length (mo_atoms mo))%nat.
+(* neighbour dicts with distinct keys inside the molecule (part of wf_mol; all the allocation bound needs) *)
+Definition adj_ok (rm : list ratom) : Prop :=
+  Forall (fun a => NoDup (map fst (ra_nbrs a)) /\ Forall (fun e => 0 <= fst e < zlen rm) (ra_nbrs a)) rm.
+
+(* what the .pyx allocates since 25e27ca:  PyMem_Malloc(molecule.atoms_count * query.atoms_count * sizeof(unsigned int)) *)
+Definition alloc_pyx (qu : query_t) (mo : molecule_t) : nat := (List.length (mo_atoms mo) * List.length (qu_atoms qu))%nat.
+(* history: the allocation before the fix, the repair suggested first, and the tight bound *)
+Definition alloc_2n (mo : molecule_t) : nat := (2 * List.length (mo_atoms mo))%nat.
 Definition alloc_atoms_plus_bonds (mo : molecule_t) : nat := (List.length (mo_atoms mo) + List.length (mo_bonds mo))%nat.
-Definition alloc_sufficient (qu : query_t) (mo : molecule_t) : nat :=
+Definition alloc_tight (qu : query_t) (mo : molecule_t) : nat :=
   (List.length (mo_atoms mo) + Nat.pred (List.length (qu_atoms qu)) * max_degree mo)%nat.
-Definition alloc_simple (qu : query_t) (mo : molecule_t) : nat := (List.length (mo_atoms mo) * List.length (qu_atoms qu))%nat.
